@@ -167,6 +167,18 @@ def run(ctx):
     sreqs = [{**req, "op": "c04.spec", "impl": impl_obs(impl), "bindings": impl.get("bindings", [])} for impl, req in results]
     answers = ctx.driver.batch(breqs)
     specs = ctx.driver.batch(sreqs)
+    # declarative whole-program specification (`programDiags` / `programCollision`, tied to the model by
+    # front_eq_programDiags / front_duplicate_position): a duplicate is raised at the first colliding registration
+    progs = ctx.driver.batch([{**req, "op": "c11.prog", "impl": impl_obs(impl)} for impl, req in results])
+    for t, (impl, req), pg in zip(todo, results, progs):
+        if "error" in pg:
+            raise RuntimeError(f"driver error {pg}")
+        ctx.stat("programDiags_" + str(pg.get("verdict")))
+        if pg.get("verdict") not in ("holds", "not-applicable") and impl["kind"] not in ("crash", "hang"):
+            ctx.report("resolution:" + pg["verdict"], "the outcome differs from the declarative whole-program specification (duplicates are raised at the second "
+                       "declaration of the name in registration order; otherwise the diagnostics are exactly programDiags)",
+                       {"input": {"files": t["files"], "root": t["root"]}, "impl": {k: v for k, v in impl.items() if k not in ("ast", "result")},
+                        "programDiags": pg.get("spec"), "hypotheses": pg.get("hypotheses")})
     breaks = []
     for t, (impl, req), m, s in zip(todo, results, answers, specs):
         for x in (m, s):
